@@ -108,3 +108,19 @@ func ZZ_C04_big(a []int) {
 	zzEmitU("err", zzB2U(err != nil))
 	zzEmitU("err2", zzB2U(err2 != nil))
 }
+
+// ZZ_C04_reuse: UnmarshalBinary of a[0] arbitrary bytes into a packet value
+// that has already decoded the valid body of shape a[1:] (every mapped
+// property present, non-empty strings): the statement quantifies over byte
+// sequences, not over fresh receivers, and state left by the first decode
+// (recomputed widths, kept slices) must not make the second one panic.
+func ZZ_C04_reuse(a []int) {
+	abs := zzGen(zzShapeOf(a[1:]))
+	p := zzNew(abs.typ)
+	if p.UnmarshalBinary(zzRefBody(abs)) != nil {
+		return
+	}
+	err := p.UnmarshalBinary(zzBytes("b", a[0]))
+	zzReach("reuse")
+	zzEmitU("err", zzB2U(err != nil))
+}
